@@ -275,6 +275,12 @@ func runC12(c *vk.Ctx) {
 		return
 	}
 	self, _ := os.Executable()
+	recordFailures, planned := 0, 0
+	defer func() {
+		if planned > 0 && recordFailures*2 > planned {
+			c.Inconclusive(fmt.Sprintf("%d of %d pairs could not be recorded with strace", recordFailures, planned))
+		}
+	}()
 	n := c.N(12, 300)
 	for i := 0; i < n; i++ {
 		if !c.Mine(i) {
@@ -285,6 +291,7 @@ func runC12(c *vk.Ctx) {
 			continue
 		}
 		cs := c12Case(c.Seed, key)
+		planned++
 		c.Begin(key)
 		tmp, err := os.MkdirTemp("", "c12-")
 		if err != nil {
@@ -361,15 +368,31 @@ func runC12(c *vk.Ctx) {
 			dt := filepath.Join(tmp, "dt")
 			copyDir(d0, dt)
 			trace := filepath.Join(tmp, "trace.txt")
-			cmd := exec.Command("strace", append([]string{"-f", "-xx", "-s", "1000000", "-o", trace, "-e", "trace=" + c12Trace, self}, append(childArgs, dt, string(callsJSON))...)...)
-			out, err := cmd.CombinedOutput()
-			if err != nil {
-				c.Inconclusive(fmt.Sprintf("strace record run failed: %v %s", err, trunc(out, 300)))
-				return
+			var calls []c12sys
+			var sawB, sawE bool
+			var lastErr string
+			for attempt := 0; attempt < 3; attempt++ {
+				os.RemoveAll(dt)
+				copyDir(d0, dt)
+				os.Remove(trace)
+				cmd := exec.Command("strace", append([]string{"-f", "-xx", "-s", "1000000", "-o", trace, "-e", "trace=" + c12Trace, self}, append(childArgs, dt, string(callsJSON))...)...)
+				out, err := cmd.CombinedOutput()
+				if err != nil {
+					lastErr = fmt.Sprintf("strace record run failed: %v %s", err, trunc(out, 300))
+					continue
+				}
+				calls, sawB, sawE, _ = parseTrace(trace, dt)
+				if sawB && sawE && len(calls) > 0 {
+					lastErr = ""
+					break
+				}
+				lastErr = fmt.Sprintf("trace has no syscalls between the markers (begin=%v end=%v calls=%d)", sawB, sawE, len(calls))
 			}
-			calls, sawB, sawE, _ := parseTrace(trace, dt)
-			if !sawB || !sawE || len(calls) == 0 {
-				c.Inconclusive(fmt.Sprintf("trace has no syscalls between the markers (begin=%v end=%v calls=%d)", sawB, sawE, len(calls)))
+			if lastErr != "" {
+				// a pair that cannot be recorded (e.g. ptrace refused under load) is an inconclusive point, not a verdict
+				c.Count("pairs_not_recorded(inconclusive points)", 1)
+				c.SetAdd("record_failures", lastErr)
+				recordFailures++
 				return
 			}
 			var names []string
